@@ -210,7 +210,7 @@ def bind_instance(sc, obj, name, special=None):
     if k in special:
       attrs[k] = special[k]
     elif isinstance(v, lock_types):
-      attrs[k] = sc.add(M.MRLock("%s.%s" % (name, k)))
+      attrs[k] = sc.add(M.MRLock("%s.%s" % (name, k), reentrant=not isinstance(v, lock_types[1])))
     elif isinstance(v, threading.Event):
       attrs[k] = sc.add(M.MEvent("%s.%s" % (name, k), 1 if v.is_set() else 0))
       sc.auto_bound.append((name, k, "%s.%s" % (name, k), "Event"))      # the replay harness proxies it (R.auto_proxy)
@@ -1061,7 +1061,7 @@ def bind_class_state(sc, cls, skip=()):
       m = sc.add(M.MAttr(name, NONE if v0 is None else int(v0)))
       m.initial_py = v0
     elif isinstance(v, (type(threading.RLock()), type(threading.Lock()))):
-      m = sc.add(M.MRLock(name))
+      m = sc.add(M.MRLock(name, reentrant=not isinstance(v, type(threading.Lock()))))
       m.initial_py = None
     else:
       continue
